@@ -12,149 +12,184 @@ CRC_ERROR, OVERFLOW, STUFFING_ERROR, ALGORITHM_ERROR = -1, -2, -3, -4
 
 NOT_CODE = ['c != ctx.GSTUFF_STUB_START', 'c != ctx.GSTUFF_STUB_STOP', 'c != ctx.GSTUFF_STUB_STUB']
 
-NEWCHAR = FnSpec(post=[
-    # memory-safety / capacity clauses
-    dict(name='len-grows-by-at-most-one', then=['line.len_post <= line.len + 1', 'line.cap_post == line.cap']),
-    dict(name='status-range', then=['ret >= -4', 'ret <= 3']),
-    # a frame that does not fit is reported as overflow, not delivered
-    dict(name='overflow-only-when-full', when=['ret == -2'], then=['state_post == 0']),
-    dict(name='full-line-data-byte-overflows',
-         when=['state == 1', 'line.len >= line.cap - 1', 'c != ctx.GSTUFF_START', 'c != ctx.GSTUFF_STOP',
-               'c != ctx.GSTUFF_STUB'],
-         then=['ret == -2', 'state_post == 0', 'line.len_post == line.len']),
-    # completed packet only with zero crc residue; crc byte stripped
-    dict(name='accept-needs-zero-residue', when=['ret == 1'], then=['crc == 0', 'state_post == 0']),
-    dict(name='accept-strips-crc', when=['ret == 1', 'line.cursor == line.len', 'line.len >= 1'],
-         then=['line.len_post == line.len - 1']),
-    dict(name='stop-with-residue-is-crc-error',
-         when=['state == 1', 'c == ctx.GSTUFF_STOP', 'c != ctx.GSTUFF_START', 'crc >= 1'],
-         then=['ret == -1', 'state_post == 0']),
-    dict(name='stop-with-zero-residue-accepts',
-         when=['state == 1', 'c == ctx.GSTUFF_STOP', 'c != ctx.GSTUFF_START', 'crc == 0'],
-         then=['ret == 1']),
-    # start marker inside a frame restarts (markers differ)
-    dict(name='start-in-frame-restarts',
-         when=['state == 1', 'c == ctx.GSTUFF_START', 'ctx.GSTUFF_START != ctx.GSTUFF_STOP'],
-         then=['ret == 2', 'state_post == 1', 'line.len_post == 0', 'line.cursor_post == 0', 'crc_post == 255']),
-    dict(name='start-when-idle-opens-frame', when=['state == 4', 'c == ctx.GSTUFF_START'],
-         then=['ret == 0', 'state_post == 1', 'line.len_post == 0', 'crc_post == 255']),
-    dict(name='garbage-when-idle', when=['state == 4', 'c != ctx.GSTUFF_START'],
-         then=['ret == 3', 'state_post == 4', 'line.len_post == line.len']),
-    dict(name='stub-enters-escape',
-         when=['state == 1', 'c == ctx.GSTUFF_STUB', 'c != ctx.GSTUFF_START', 'c != ctx.GSTUFF_STOP'],
-         then=['ret == 0', 'state_post == 2', 'line.len_post == line.len']),
-    # escape decoding: the byte stored is the marker the code stands for
-    dict(name='escape-start', when=['state == 2', 'c == ctx.GSTUFF_STUB_START', 'line.len < line.cap - 1'],
-         then=['ret == 0', 'state_post == 1', 'ghost_put == ctx.GSTUFF_START', 'line.len_post == line.len + 1']),
-    dict(name='escape-stop',
-         when=['state == 2', 'c != ctx.GSTUFF_STUB_START', 'c == ctx.GSTUFF_STUB_STOP', 'line.len < line.cap - 1'],
-         then=['ret == 0', 'state_post == 1', 'ghost_put == ctx.GSTUFF_STOP']),
-    dict(name='escape-stub',
-         when=['state == 2', 'c != ctx.GSTUFF_STUB_START', 'c != ctx.GSTUFF_STUB_STOP', 'c == ctx.GSTUFF_STUB_STUB',
-               'line.len < line.cap - 1'],
-         then=['ret == 0', 'state_post == 1', 'ghost_put == ctx.GSTUFF_STUB']),
-    dict(name='invalid-escape-is-an-error', when=['state == 2', 'c != ctx.GSTUFF_START'] + NOT_CODE,
-         then=['ret == -3', 'state_post == 0']),
-    dict(name='start-after-stub-restarts', when=['state == 2', 'c == ctx.GSTUFF_START'] + NOT_CODE,
-         then=['ret == 2', 'state_post == 1', 'line.len_post == 0', 'crc_post == 255']),
-    dict(name='data-byte-stored', when=['state == 1', 'line.len < line.cap - 1', 'c != ctx.GSTUFF_START',
-                                        'c != ctx.GSTUFF_STOP', 'c != ctx.GSTUFF_STUB'],
-         then=['ret == 0', 'state_post == 1', 'ghost_put == c', 'line.len_post == line.len + 1']),
-] + [
-    # Resynchronisation when the markers differ: from EVERY state (idle after a frame or an error, idle, inside a frame,
-    # after an escape byte) a start marker leaves the receiver in one and the same configuration - in-frame, empty line,
-    # CRC register re-armed.  What is received after a start marker therefore does not depend on anything received
-    # before it: a well-formed frame following any garbage is processed exactly as by a fresh receiver, i.e. it is
-    # delivered intact, from the first one on.
-    dict(name='resync:start-marker-from-state-%d-gives-the-fresh-in-frame-configuration' % s_,
-         when=['state == %d' % s_, 'c == ctx.GSTUFF_START', 'ctx.GSTUFF_START != ctx.GSTUFF_STOP'] + NOT_CODE,
-         then=['state_post == 1', 'line.len_post == 0', 'line.cursor_post == 0', 'crc_post == 255',
-               'line.cap_post == line.cap'])
-    for s_ in (0, 1, 2, 4)
-] + [
-    # Resynchronisation when the markers COINCIDE (START == STOP == M, e.g. gstuff_context_v0).  The configurations are
-    # idle (0/4), fresh (1, empty line, CRC 0xff), mid (1, len >= 1) and esc (2).  The clauses below give, for the marker:
-    #   idle -> fresh, fresh -> fresh, esc -> fresh, mid -> idle;  and for any other byte: idle -> idle.
-    # A well-formed frame is M, a non-empty marker-free body (at least the CRC byte), M.  Whatever configuration the garbage
-    # left, the opening M of the first frame therefore gives fresh (the frame is then processed as by a fresh receiver and
-    # delivered) or idle; from idle the body is discarded, the closing M gives fresh, the opening M of the SECOND frame
-    # keeps fresh, and the second frame is delivered: "from the second at the latest".  The step fresh -> fresh is the
-    # one that matters: a receiver that treats a marker on an empty line as a stop reports a CRC error, goes idle, and is
-    # out of phase for every following frame.
-    dict(name='resync-same:marker-when-idle-gives-the-fresh-in-frame-configuration',
-         when=['state == 0', 'c == ctx.GSTUFF_START', 'ctx.GSTUFF_START == ctx.GSTUFF_STOP'],
-         then=['state_post == 1', 'line.len_post == 0', 'line.cursor_post == 0', 'crc_post == 255']),
-    dict(name='resync-same:marker-when-idle(4)-gives-the-fresh-in-frame-configuration',
-         when=['state == 4', 'c == ctx.GSTUFF_START', 'ctx.GSTUFF_START == ctx.GSTUFF_STOP'],
-         then=['state_post == 1', 'line.len_post == 0', 'line.cursor_post == 0', 'crc_post == 255']),
-    dict(name='resync-same:marker-on-an-empty-line-keeps-the-fresh-in-frame-configuration',
-         when=['state == 1', 'c == ctx.GSTUFF_START', 'ctx.GSTUFF_START == ctx.GSTUFF_STOP', 'line.len == 0',
-               'line.cursor == 0', 'crc == 255'],
-         then=['ret == 0', 'state_post == 1', 'line.len_post == 0', 'line.cursor_post == 0', 'crc_post == 255']),
-    dict(name='resync-same:marker-after-an-escape-byte-gives-the-fresh-in-frame-configuration',
-         when=['state == 2', 'c == ctx.GSTUFF_START', 'ctx.GSTUFF_START == ctx.GSTUFF_STOP'] + NOT_CODE,
-         then=['state_post == 1', 'line.len_post == 0', 'line.cursor_post == 0', 'crc_post == 255']),
-    dict(name='resync-same:marker-inside-a-frame-ends-it',
-         when=['state == 1', 'c == ctx.GSTUFF_START', 'ctx.GSTUFF_START == ctx.GSTUFF_STOP', 'line.len >= 1'],
-         then=['state_post == 0']),
-    dict(name='resync-same:other-bytes-leave-an-idle-receiver-idle(0)', when=['state == 0', 'c != ctx.GSTUFF_START'],
-         then=['ret == 3', 'state_post == 4']),
-    # the configuration "state 1 with an empty line" is always the fresh one (CRC register 0xff): every step either leaves
-    # state 1, or stores a byte (len_post >= 1), or is one of the reset steps above - the three clauses that complete the
-    # case analysis:
-    dict(name='fresh-inv:a-stored-byte-makes-the-line-non-empty', when=['state == 2', 'ret == 0'],
-         then=['line.len_post >= 1', 'state_post == 1']),
-    dict(name='fresh-inv:in-frame-steps-that-stay-in-frame-store-a-byte-or-are-the-marker',
-         when=['state == 1', 'state_post == 1', 'c != ctx.GSTUFF_START'], then=['line.len_post >= 1']),
-])
+def newchar_spec(S):
+    """S: status name -> value, read from gstuff.h through witness/w_c05_status.cpp"""
+    return FnSpec(post=[
+        # memory-safety / capacity clauses
+        dict(name='len-grows-by-at-most-one', then=['line.len_post <= line.len + 1', 'line.cap_post == line.cap']),
+        dict(name='status-range', then=['ret >= %d' % min(S.values()), 'ret <= %d' % max(S.values())]),
+        # a frame that does not fit is reported as overflow, not delivered
+        dict(name='overflow-only-when-full', when=['ret == %d' % S['OVERFLOW']], then=['state_post == 0']),
+        dict(name='full-line-data-byte-overflows',
+             when=['state == 1', 'line.len >= line.cap - 1', 'c != ctx.GSTUFF_START', 'c != ctx.GSTUFF_STOP',
+                   'c != ctx.GSTUFF_STUB'],
+             then=['ret == %d' % S['OVERFLOW'], 'state_post == 0', 'line.len_post == line.len']),
+        # completed packet only with zero crc residue; crc byte stripped
+        dict(name='accept-needs-zero-residue', when=['ret == %d' % S['NEWPACKAGE']], then=['crc == 0', 'state_post == 0']),
+        dict(name='accept-strips-crc', when=['ret == %d' % S['NEWPACKAGE'], 'line.cursor == line.len', 'line.len >= 1'],
+             then=['line.len_post == line.len - 1']),
+        dict(name='stop-with-residue-is-crc-error',
+             when=['state == 1', 'c == ctx.GSTUFF_STOP', 'c != ctx.GSTUFF_START', 'crc >= 1'],
+             then=['ret == %d' % S['CRC_ERROR'], 'state_post == 0']),
+        dict(name='stop-with-zero-residue-accepts',
+             when=['state == 1', 'c == ctx.GSTUFF_STOP', 'c != ctx.GSTUFF_START', 'crc == 0'],
+             then=['ret == %d' % S['NEWPACKAGE']]),
+        # start marker inside a frame restarts (markers differ)
+        dict(name='start-in-frame-restarts',
+             when=['state == 1', 'c == ctx.GSTUFF_START', 'ctx.GSTUFF_START != ctx.GSTUFF_STOP'],
+             then=['ret == %d' % S['FORCE_RESTART'], 'state_post == 1', 'line.len_post == 0', 'line.cursor_post == 0', 'crc_post == 255']),
+        dict(name='start-when-idle-opens-frame', when=['state == 4', 'c == ctx.GSTUFF_START'],
+             then=['ret == %d' % S['CONTINUE'], 'state_post == 1', 'line.len_post == 0', 'crc_post == 255']),
+        dict(name='garbage-when-idle', when=['state == 4', 'c != ctx.GSTUFF_START'],
+             then=['ret == %d' % S['GARBAGE'], 'state_post == 4', 'line.len_post == line.len']),
+        dict(name='stub-enters-escape',
+             when=['state == 1', 'c == ctx.GSTUFF_STUB', 'c != ctx.GSTUFF_START', 'c != ctx.GSTUFF_STOP'],
+             then=['ret == %d' % S['CONTINUE'], 'state_post == 2', 'line.len_post == line.len']),
+        # escape decoding: the byte stored is the marker the code stands for
+        dict(name='escape-start', when=['state == 2', 'c == ctx.GSTUFF_STUB_START', 'line.len < line.cap - 1'],
+             then=['ret == %d' % S['CONTINUE'], 'state_post == 1', 'ghost_put == ctx.GSTUFF_START', 'line.len_post == line.len + 1']),
+        dict(name='escape-stop',
+             when=['state == 2', 'c != ctx.GSTUFF_STUB_START', 'c == ctx.GSTUFF_STUB_STOP', 'line.len < line.cap - 1'],
+             then=['ret == %d' % S['CONTINUE'], 'state_post == 1', 'ghost_put == ctx.GSTUFF_STOP']),
+        dict(name='escape-stub',
+             when=['state == 2', 'c != ctx.GSTUFF_STUB_START', 'c != ctx.GSTUFF_STUB_STOP', 'c == ctx.GSTUFF_STUB_STUB',
+                   'line.len < line.cap - 1'],
+             then=['ret == %d' % S['CONTINUE'], 'state_post == 1', 'ghost_put == ctx.GSTUFF_STUB']),
+        dict(name='invalid-escape-is-an-error', when=['state == 2', 'c != ctx.GSTUFF_START'] + NOT_CODE,
+             then=['ret == %d' % S['STUFFING_ERROR'], 'state_post == 0']),
+        dict(name='start-after-stub-restarts', when=['state == 2', 'c == ctx.GSTUFF_START'] + NOT_CODE,
+             then=['ret == %d' % S['FORCE_RESTART'], 'state_post == 1', 'line.len_post == 0', 'crc_post == 255']),
+        dict(name='data-byte-stored', when=['state == 1', 'line.len < line.cap - 1', 'c != ctx.GSTUFF_START',
+                                            'c != ctx.GSTUFF_STOP', 'c != ctx.GSTUFF_STUB'],
+             then=['ret == %d' % S['CONTINUE'], 'state_post == 1', 'ghost_put == c', 'line.len_post == line.len + 1']),
+    ] + [
+        # Resynchronisation when the markers differ: from EVERY state (idle after a frame or an error, idle, inside a frame,
+        # after an escape byte) a start marker leaves the receiver in one and the same configuration - in-frame, empty line,
+        # CRC register re-armed.  What is received after a start marker therefore does not depend on anything received
+        # before it: a well-formed frame following any garbage is processed exactly as by a fresh receiver, i.e. it is
+        # delivered intact, from the first one on.
+        dict(name='resync:start-marker-from-state-%d-gives-the-fresh-in-frame-configuration' % s_,
+             when=['state == %d' % s_, 'c == ctx.GSTUFF_START', 'ctx.GSTUFF_START != ctx.GSTUFF_STOP'] + NOT_CODE,
+             then=['state_post == 1', 'line.len_post == 0', 'line.cursor_post == 0', 'crc_post == 255',
+                   'line.cap_post == line.cap'])
+        for s_ in (0, 1, 2, 4)
+    ] + [
+        # Resynchronisation when the markers COINCIDE (START == STOP == M, e.g. gstuff_context_v0).  The configurations are
+        # idle (0/4), fresh (1, empty line, CRC 0xff), mid (1, len >= 1) and esc (2).  The clauses below give, for the marker:
+        #   idle -> fresh, fresh -> fresh, esc -> fresh, mid -> idle;  and for any other byte: idle -> idle.
+        # A well-formed frame is M, a non-empty marker-free body (at least the CRC byte), M.  Whatever configuration the garbage
+        # left, the opening M of the first frame therefore gives fresh (the frame is then processed as by a fresh receiver and
+        # delivered) or idle; from idle the body is discarded, the closing M gives fresh, the opening M of the SECOND frame
+        # keeps fresh, and the second frame is delivered: "from the second at the latest".  The step fresh -> fresh is the
+        # one that matters: a receiver that treats a marker on an empty line as a stop reports a CRC error, goes idle, and is
+        # out of phase for every following frame.
+        dict(name='resync-same:marker-when-idle-gives-the-fresh-in-frame-configuration',
+             when=['state == 0', 'c == ctx.GSTUFF_START', 'ctx.GSTUFF_START == ctx.GSTUFF_STOP'],
+             then=['state_post == 1', 'line.len_post == 0', 'line.cursor_post == 0', 'crc_post == 255']),
+        dict(name='resync-same:marker-when-idle(4)-gives-the-fresh-in-frame-configuration',
+             when=['state == 4', 'c == ctx.GSTUFF_START', 'ctx.GSTUFF_START == ctx.GSTUFF_STOP'],
+             then=['state_post == 1', 'line.len_post == 0', 'line.cursor_post == 0', 'crc_post == 255']),
+        dict(name='resync-same:marker-on-an-empty-line-keeps-the-fresh-in-frame-configuration',
+             when=['state == 1', 'c == ctx.GSTUFF_START', 'ctx.GSTUFF_START == ctx.GSTUFF_STOP', 'line.len == 0',
+                   'line.cursor == 0', 'crc == 255'],
+             then=['ret == %d' % S['CONTINUE'], 'state_post == 1', 'line.len_post == 0', 'line.cursor_post == 0', 'crc_post == 255']),
+        dict(name='resync-same:marker-after-an-escape-byte-gives-the-fresh-in-frame-configuration',
+             when=['state == 2', 'c == ctx.GSTUFF_START', 'ctx.GSTUFF_START == ctx.GSTUFF_STOP'] + NOT_CODE,
+             then=['state_post == 1', 'line.len_post == 0', 'line.cursor_post == 0', 'crc_post == 255']),
+        dict(name='resync-same:marker-inside-a-frame-ends-it',
+             when=['state == 1', 'c == ctx.GSTUFF_START', 'ctx.GSTUFF_START == ctx.GSTUFF_STOP', 'line.len >= 1'],
+             then=['state_post == 0']),
+        dict(name='resync-same:other-bytes-leave-an-idle-receiver-idle(0)', when=['state == 0', 'c != ctx.GSTUFF_START'],
+             then=['ret == %d' % S['GARBAGE'], 'state_post == 4']),
+        # the configuration "state 1 with an empty line" is always the fresh one (CRC register 0xff): every step either leaves
+        # state 1, or stores a byte (len_post >= 1), or is one of the reset steps above - the three clauses that complete the
+        # case analysis:
+        dict(name='fresh-inv:a-stored-byte-makes-the-line-non-empty', when=['state == 2', 'ret == %d' % S['CONTINUE']],
+             then=['line.len_post >= 1', 'state_post == 1']),
+        dict(name='fresh-inv:in-frame-steps-that-stay-in-frame-store-a-byte-or-are-the-marker',
+             when=['state == 1', 'state_post == 1', 'c != ctx.GSTUFF_START'], then=['line.len_post >= 1']),
+    ])
 
 # legacy receiver: constants instead of a context; START doubles as STOP
-L_START, L_STUB, L_STUB_START, L_STUB_STUB = -84, -83, -82, -81
-NEWCHAR_V1 = FnSpec(pre=['state <= 2'], post=[
-    dict(name='len-grows-by-at-most-one', then=['line.len_post <= line.len + 1', 'line.cap_post == line.cap']),
-    dict(name='full-line-data-byte-overflows',
-         when=['state == 1', 'line.len >= line.cap - 1', 'c != %d' % L_START, 'c != %d' % L_STUB],
-         then=['ret == -2', 'state_post == 0', 'line.len_post == line.len']),
-    dict(name='accept-needs-zero-residue', when=['ret == 1'], then=['crc == 0', 'state_post == 0', 'line.len >= 1']),
-    dict(name='marker-with-residue-is-crc-error',
-         when=['state == 1', 'c == %d' % L_START, 'line.len >= 1', 'crc >= 1'], then=['ret == -1', 'state_post == 0']),
-    dict(name='marker-on-empty-line-ignored', when=['state == 1', 'c == %d' % L_START, 'line.len == 0'],
-         then=['ret == 0', 'state_post == 1', 'line.len_post == 0']),
-    dict(name='stub-enters-escape', when=['state == 1', 'c == %d' % L_STUB], then=['ret == 0', 'state_post == 2']),
-    dict(name='escape-start', when=['state == 2', 'c == %d' % L_STUB_START, 'line.len < line.cap - 1'],
-         then=['ret == 0', 'state_post == 1', 'ghost_put == %d' % L_START]),
-    dict(name='escape-stub', when=['state == 2', 'c == %d' % L_STUB_STUB, 'line.len < line.cap - 1'],
-         then=['ret == 0', 'state_post == 1', 'ghost_put == %d' % L_STUB]),
-    dict(name='invalid-escape-is-an-error',
-         when=['state == 2', 'c != %d' % L_STUB_START, 'c != %d' % L_STUB_STUB], then=['ret == -3', 'state_post == 0']),
-    dict(name='data-byte-stored', when=['state == 1', 'line.len < line.cap - 1', 'c != %d' % L_START, 'c != %d' % L_STUB],
-         then=['ret == 0', 'state_post == 1', 'ghost_put == c', 'line.len_post == line.len + 1']),
-] + [
-    # Resynchronisation of the legacy receiver (one marker M is start and stop).  M leaves the receiver idle (state 0) or
-    # in frame with an empty line; an idle receiver resets on its next byte and then acts as state 1, so both are the
-    # fresh configuration and every frame that follows an M - i.e. the first frame after the garbage at the latest the
-    # second (when the opening M ended a half-received frame) - is processed as by a fresh receiver:
-    dict(name='resync:marker-inside-a-frame-ends-it', when=['state == 1', 'c == %d' % L_START, 'line.len >= 1'],
-         then=['state_post == 0']),
-    dict(name='resync:marker-after-an-escape-byte-ends-the-frame', when=['state == 2', 'c == %d' % L_START],
-         then=['state_post == 0']),
-    dict(name='resync:marker-on-an-empty-line-keeps-the-fresh-configuration',
-         when=['state == 1', 'c == %d' % L_START, 'line.len == 0', 'crc == 255'],
-         then=['ret == 0', 'state_post == 1', 'line.len_post == 0', 'crc_post == 255']),
-    dict(name='resync:marker-when-idle-gives-the-fresh-configuration', when=['state == 0', 'c == %d' % L_START],
-         then=['ret == 0', 'state_post == 1', 'line.len_post == 0', 'line.cursor_post == 0', 'crc_post == 255']),
-    dict(name='resync:idle-receiver-starts-from-an-empty-line-and-a-fresh-crc(data)',
-         when=['state == 0', 'c != %d' % L_START, 'c != %d' % L_STUB],
-         then=['ret == 0', 'state_post == 1', 'line.len_post == 1', 'ghost_put == c', 'ghost_crcin == 255']),
-    dict(name='resync:idle-receiver-starts-from-an-empty-line-and-a-fresh-crc(stub)',
-         when=['state == 0', 'c == %d' % L_STUB],
-         then=['ret == 0', 'state_post == 2', 'line.len_post == 0', 'line.cursor_post == 0', 'crc_post == 255']),
-    dict(name='resync:every-error-or-delivery-leaves-the-receiver-idle', when=['ret != 0'], then=['state_post == 0']),
-    dict(name='fresh-inv:in-frame-steps-that-stay-in-frame-store-a-byte-or-are-the-marker',
-         when=['state == 1', 'state_post == 1', 'c != %d' % L_START], then=['line.len_post >= 1']),
-    dict(name='fresh-inv:a-stored-byte-makes-the-line-non-empty', when=['state == 2', 'ret == 0'],
-         then=['line.len_post >= 1', 'state_post == 1']),
-])
+def newchar_v1_spec(S, A):
+    """S: status name -> value, A: (START, STUB, code of START, code of STUB) as signed chars; both read from the headers
+    through witness/w_c05_status_v1.c"""
+    L_START, L_STUB, L_STUB_START, L_STUB_STUB = A
+    return FnSpec(pre=['state <= 3'], post=[
+        dict(name='len-grows-by-at-most-one', then=['line.len_post <= line.len + 1', 'line.cap_post == line.cap']),
+        dict(name='full-line-data-byte-overflows',
+             when=['state == 1', 'line.len >= line.cap - 1', 'c != %d' % L_START, 'c != %d' % L_STUB],
+             then=['ret == %d' % S['OVERFLOW'], 'state_post == 3', 'line.len_post == line.len']),
+        dict(name='accept-needs-zero-residue', when=['ret == %d' % S['NEWPACKAGE']], then=['crc == 0', 'state_post == 0', 'line.len >= 1']),
+        dict(name='marker-with-residue-is-crc-error',
+             when=['state == 1', 'c == %d' % L_START, 'line.len >= 1', 'crc >= 1'], then=['ret == %d' % S['CRC_ERROR'], 'state_post == 0']),
+        dict(name='marker-on-empty-line-ignored', when=['state == 1', 'c == %d' % L_START, 'line.len == 0'],
+             then=['ret == %d' % S['CONTINUE'], 'state_post == 1', 'line.len_post == 0']),
+        dict(name='stub-enters-escape', when=['state == 1', 'c == %d' % L_STUB], then=['ret == %d' % S['CONTINUE'], 'state_post == 2']),
+        dict(name='escape-start', when=['state == 2', 'c == %d' % L_STUB_START, 'line.len < line.cap - 1'],
+             then=['ret == %d' % S['CONTINUE'], 'state_post == 1', 'ghost_put == %d' % L_START]),
+        dict(name='escape-stub', when=['state == 2', 'c == %d' % L_STUB_STUB, 'line.len < line.cap - 1'],
+             then=['ret == %d' % S['CONTINUE'], 'state_post == 1', 'ghost_put == %d' % L_STUB]),
+        dict(name='invalid-escape-is-an-error',
+             when=['state == 2', 'c != %d' % L_STUB_START, 'c != %d' % L_STUB_STUB], then=['ret == %d' % S['DATA_ERROR']]),
+        dict(name='invalid-escape-refuses-the-frame', when=['state == 2', 'c != %d' % L_STUB_START, 'c != %d' % L_STUB_STUB,
+                                                            'c != %d' % L_START], then=['state_post == 3']),
+        # a refused frame (too long, invalid escape) is skipped up to the marker that ends it: its remaining bytes are not the
+        # unescaped bytes since a start marker and must not be parsed as a frame of their own
+        dict(name='skip:bytes-of-a-refused-frame-are-ignored', when=['state == 3', 'c != %d' % L_START],
+             then=['ret == %d' % S['CONTINUE'], 'state_post == 3', 'line.len_post == line.len']),
+        dict(name='skip:the-marker-ends-the-refused-frame', when=['state == 3', 'c == %d' % L_START],
+             then=['ret == %d' % S['CONTINUE'], 'state_post == 0']),
+        dict(name='data-byte-stored', when=['state == 1', 'line.len < line.cap - 1', 'c != %d' % L_START, 'c != %d' % L_STUB],
+             then=['ret == %d' % S['CONTINUE'], 'state_post == 1', 'ghost_put == c', 'line.len_post == line.len + 1']),
+    ] + [
+        # Resynchronisation of the legacy receiver (one marker M is start and stop; state 3 = skipping a refused frame up to M).
+        # M leaves the receiver idle (state 0) or
+        # in frame with an empty line; an idle receiver resets on its next byte and then acts as state 1, so both are the
+        # fresh configuration and every frame that follows an M - i.e. the first frame after the garbage at the latest the
+        # second (when the opening M ended a half-received frame) - is processed as by a fresh receiver:
+        dict(name='resync:marker-inside-a-frame-ends-it', when=['state == 1', 'c == %d' % L_START, 'line.len >= 1'],
+             then=['state_post == 0']),
+        dict(name='resync:marker-after-an-escape-byte-ends-the-frame', when=['state == 2', 'c == %d' % L_START],
+             then=['state_post == 0']),
+        dict(name='resync:marker-on-an-empty-line-keeps-the-fresh-configuration',
+             when=['state == 1', 'c == %d' % L_START, 'line.len == 0', 'crc == 255'],
+             then=['ret == %d' % S['CONTINUE'], 'state_post == 1', 'line.len_post == 0', 'crc_post == 255']),
+        dict(name='resync:marker-when-idle-gives-the-fresh-configuration', when=['state == 0', 'c == %d' % L_START],
+             then=['ret == %d' % S['CONTINUE'], 'state_post == 1', 'line.len_post == 0', 'line.cursor_post == 0', 'crc_post == 255']),
+        dict(name='resync:idle-receiver-starts-from-an-empty-line-and-a-fresh-crc(data)',
+             when=['state == 0', 'c != %d' % L_START, 'c != %d' % L_STUB],
+             then=['ret == %d' % S['CONTINUE'], 'state_post == 1', 'line.len_post == 1', 'ghost_put == c', 'ghost_crcin == 255']),
+        dict(name='resync:idle-receiver-starts-from-an-empty-line-and-a-fresh-crc(stub)',
+             when=['state == 0', 'c == %d' % L_STUB],
+             then=['ret == %d' % S['CONTINUE'], 'state_post == 2', 'line.len_post == 0', 'line.cursor_post == 0', 'crc_post == 255']),
+        dict(name='resync:delivery-leaves-the-receiver-idle', when=['ret == %d' % S['NEWPACKAGE']], then=['state_post == 0']),
+        dict(name='status-range', then=['ret >= %d' % min(S.values()), 'ret <= %d' % max(S.values())]),
+        dict(name='resync:no-status-but-continue-leaves-the-receiver-in-a-frame(1)', when=['ret != %d' % S['CONTINUE'], 'state_post <= 2'],
+             then=['state_post == 0']),
+        dict(name='resync:no-status-but-continue-leaves-the-receiver-in-a-frame(2)', when=['ret != %d' % S['CONTINUE'], 'state_post >= 1'],
+             then=['state_post == 3']),
+        dict(name='resync:crc-error-leaves-the-receiver-idle', when=['ret == %d' % S['CRC_ERROR']], then=['state_post == 0']),
+        dict(name='resync:overflow-skips-to-the-marker', when=['ret == %d' % S['OVERFLOW']], then=['state_post == 3']),
+        dict(name='resync:data-error-skips-to-the-marker-unless-it-was-the-marker', when=['ret == %d' % S['DATA_ERROR'], 'c != %d' % L_START],
+             then=['state_post == 3']),
+        dict(name='fresh-inv:in-frame-steps-that-stay-in-frame-store-a-byte-or-are-the-marker',
+             when=['state == 1', 'state_post == 1', 'c != %d' % L_START], then=['line.len_post >= 1']),
+        dict(name='fresh-inv:a-stored-byte-makes-the-line-non-empty', when=['state == 2', 'ret == %d' % S['CONTINUE']],
+             then=['line.len_post >= 1', 'state_post == 1']),
+    ])
+
+
+def status_codes(mod, gname, names):
+    """the status macros of the receiver API as the header defines them (renumbering them is not a change of behaviour)"""
+    g = mod.globals.get(gname)
+    init = g.get('init') if g else None
+    if not (isinstance(init, list) and len(init) == len(names) and all(isinstance(x, int) for x in init)):
+        raise AnalysisBroken('witness: status table %s not found' % gname)
+    vals = [x - (1 << 32) if x >= (1 << 31) else x for x in init]
+    if len(set(vals)) != len(vals):
+        raise AnalysisBroken('status codes %s are not pairwise different: %s' % (names, vals))
+    return dict(zip(names, vals))
 
 
 def put_hook(interp, st, i, callee, args):
@@ -234,9 +269,11 @@ def run(rep, repo, tier, as_decoder=False):
         'after-escape to fresh and mid-frame to idle, other bytes keep idle idle, so the opening marker of the first frame gives '
         'fresh (delivered) or idle, and then the closing marker gives fresh and the opening marker of the second frame keeps it '
         '(delivered from the second at the latest); the legacy receiver likewise (marker -> idle or fresh, idle resets on its next '
-        'byte and continues as state 1 with CRC register 0xff).  What is composed in prose and not mechanically: that a frame '
+        'byte and continues as state 1 with CRC register 0xff; a frame refused with OVERFLOW / DATA_ERROR puts it into the skip '
+        'state 3, which ignores every byte up to the marker and goes idle there, so the tail of a refused frame is never parsed '
+        'as a frame of its own).  What is composed in prose and not mechanically: that a frame '
         'body contains no marker (C04 R-FRAME decides it for the encoders) and the induction over the stream.')
-    rep.assumptions += ['receiver state is one of the values the automaton itself stores (0,1,2,4)',
+    rep.assumptions += ['receiver state is one of the values the automaton itself stores (0,1,2,4; legacy 0,1,2,3)',
                         'marker alphabet values are arbitrary (symbolic) for the configurable receiver']
     src = repo + '/igris/protocols/gstuff.cpp'
     mod = compile_ir(src, repo)
@@ -247,7 +284,10 @@ def run(rep, repo, tier, as_decoder=False):
     run = ContractRun(it, [RECV])
     st = {'this': RECV}
     import copy
-    nc = copy.copy(NEWCHAR)
+    nc = newchar_spec(status_codes(witness('w_c05_status.cpp', repo), 'igris_verif_c05_status',
+                                   ['CONTINUE', 'NEWPACKAGE', 'FORCE_RESTART', 'GARBAGE', 'CRC_ERROR', 'OVERFLOW',
+                                    'STUFFING_ERROR', 'ALGORITHM_ERROR']))
+    rep.units.append('witness/w_c05_status.cpp -> igris/protocols/gstuff.h (status codes)')
     nc.structs = st
     nc.pre = ['state <= 4', 'state != 3']
     run.run(cxx(mod, R, 'newchar'), nc)
@@ -273,7 +313,17 @@ def run(rep, repo, tier, as_decoder=False):
     it1 = Interp(mod1, externals=CRC_EXT, opaque=CRC_OPAQUE)
     it1.call_hook = put_hook
     run1 = ContractRun(it1, [RECV1])
-    run1.run('gstuff_autorecv_newchar_v1', NEWCHAR_V1)
+    modw1 = witness('w_c05_status_v1.c', repo)
+    rep.units.append('witness/w_c05_status_v1.c -> igris/protocols/gstuff_v1/autorecv.h, gstuff.h (status codes, alphabet)')
+    S1 = status_codes(modw1, 'igris_verif_c05_v1_status', ['CONTINUE', 'NEWPACKAGE', 'CRC_ERROR', 'OVERFLOW', 'DATA_ERROR'])
+    g = modw1.globals.get('igris_verif_c05_v1_alphabet')
+    init = g.get('init') if g else None
+    if not (isinstance(init, list) and len(init) == 4 and all(isinstance(x, int) for x in init)):
+        raise AnalysisBroken('witness: legacy alphabet table not found')
+    A1 = tuple(x - 256 if x >= 128 else x for x in init)
+    if len(set(A1)) != 4:
+        raise AnalysisBroken('legacy alphabet values are not pairwise different: %r' % (A1,))
+    run1.run('gstuff_autorecv_newchar_v1', newchar_v1_spec(S1, A1))
     run1.run('gstuff_autorecv_reset_v1', FnSpec(post=[dict(name='cleared', then=['line.len_post == 0', 'crc_post == 255'])]))
     run1.run('gstuff_autorecv_setbuf_v1', FnSpec(ctor=True, structs={'autom': RECV1}, pre=['len >= 2'], extents={'buf': 'len'},
                                                  post=[dict(name='ready', then=['line.len_post == 0', 'crc_post == 255', 'line.cap_post == len'])]))
@@ -289,3 +339,7 @@ def run(rep, repo, tier, as_decoder=False):
     rep.floor('R-RECV:invariant', 10)
     rep.floor('R-RECV1:post', 35)
     rep.floor('R-WHOWRITES', 6)
+    # stream-level clauses (garbage prefixes, truncated / corrupted / over-long frames, concatenations) on the memoised
+    # symbolic transition system of both receivers
+    import c05_streams
+    c05_streams.run_ext(rep, repo, tier)
